@@ -357,7 +357,7 @@ theorem agreesOptions_toplevel {rows : List OptRow} {obs : List Observed} (h : A
   exact ⟨r, hr, by rw [hn, this], hv r hr hn⟩
 
 /-- a row that shows a subproject option's own value cannot agree once the subproject read another (e.g. a yielded)
-value: the model-level form of the recorded finding -/
+value: the model-level form of the defect repaired in /repo ec2d585 (a row must show the effective value) -/
 theorem stale_row_disagrees (rows : List OptRow) (r : OptRow) (o : Observed) (hr : r ∈ rows)
     (hn : r.name = rowNameFor rows o) (hv : r.value ≠ o.value) (obs : List Observed) (ho : o ∈ obs) :
     ¬ AgreesOptions rows obs := fun h => hv ((h o ho).2 r hr hn)
@@ -446,7 +446,7 @@ example : AgreesInstalled (s "/usr") [(s "/b/app", s "/usr/bin/app"), (s "/s/a.h
 example : AgreesOptions [⟨s "c", s "c"⟩, ⟨s "sp:c", s "c"⟩, ⟨s "werror", s "false"⟩]
     [⟨[], s "c", false, s "c"⟩, ⟨s "sp", s "c", false, s "c"⟩, ⟨s "sp", s "werror", true, s "false"⟩] :=
   (checkOptions_iff _ _).1 (by decide)
-/-- the recorded finding: the subproject read `c`, the row shows its own value `b` -/
+/-- the defect repaired in /repo ec2d585: the subproject read `c`, the row showed the option's own value `b` -/
 example : ¬ AgreesOptions [⟨s "c", s "c"⟩, ⟨s "sp:c", s "b"⟩] [⟨s "sp", s "c", false, s "c"⟩] :=
   fun h => absurd ((checkOptions_iff _ _).2 h) (by decide)
 
